@@ -64,3 +64,10 @@ func ga_ScNeg(s, t *Scalar) *Scalar {
 }
 
 func GNegS(a verif.BV) verif.BV { return verif.UFBV("sc_neg", 256, a) }
+
+// IsCanonical is exact (C05): at the protocol level it is the comparison itself.
+//
+//verif:contract for=(*curve/scalar.Scalar).IsCanonical group=gapi
+func ga_IsCanonical(s *Scalar) bool {
+	return bval(s).ULT(verif.BVHex(hexL, 256))
+}
